@@ -200,6 +200,14 @@ def gen_cases(rnd, tier):
                 lits.append(("stream", obs_stream(cut(stream, [c]))))
             lits.append(("stream", obs_stream([stream[i : i + 1] for i in range(len(stream))])))
             lits.append(("stream", obs_stream([stream])))
+            # a frame that is not an HSMS message in front of / between the frames: a 14-byte frame with an undefined SType, a frame of 4
+            # bytes (too short for a header) - the frames behind it are complete messages
+            if len(frames) >= 1:
+                bad = rnd.choice([bytes([0, 0, 0, 10, 0xFF, 0xFF, 0, 0, 0, 8, 0, 0, 0, 9]), bytes([0, 0, 0, 4, 1, 2, 3, 4]), bytes([0, 0, 0, 10, 0, 0, 1, 1, 0, 200, 0, 0, 0, 7])])
+                k = rnd.randrange(len(frames) + 1)
+                mixed = b"".join(frames[:k]) + bad + b"".join(frames[k:])
+                lits.append(("stream", obs_stream([mixed])))
+                lits.append(("stream", obs_stream([mixed[i : i + 3] for i in range(0, len(mixed), 3)])))
             for _ in range(60 if tier == "quick" else 600):
                 k = rnd.randint(2, 8)
                 cuts = sorted(set(rnd.randint(1, len(stream) - 1) for _ in range(k)))
